@@ -36,7 +36,23 @@ type addrObs struct {
 	servRet                  string
 }
 
+// freePort returns a tcp port that is free now and is very unlikely to be taken before it is used: it is
+// chosen OUTSIDE the kernel's ephemeral range (so no unrelated connect/listen(:0) can grab it), from a
+// sequence that depends on this process's pid (so other harness processes running at the same time walk
+// different ports), and probed by listening on it once.
+var portCounter int
+
 func freePort() int {
+	for try := 0; try < 200; try++ {
+		portCounter++
+		p := 20000 + (os.Getpid()*131+portCounter*17)%11000
+		l, err := net.Listen("tcp", fmt.Sprintf("127.0.0.1:%d", p))
+		if err != nil {
+			continue
+		}
+		l.Close()
+		return p
+	}
 	l, err := net.Listen("tcp", "127.0.0.1:0")
 	if err != nil {
 		return 1
